@@ -32,12 +32,12 @@ pub fn alphabet_string(cur: &mut Cursor, alphabet: &str, max_len: usize) -> Stri
 }
 
 /// One or two edits: insert, delete, replace, transpose, truncate (at a character boundary),
-/// duplicate a piece of the text.
+/// duplicate a piece of the text, flip the case of a letter.
 pub fn mutate(cur: &mut Cursor, s: &str, alphabet: &str) -> String {
     let mut chars: Vec<char> = s.chars().collect();
     let edits = 1 + cur.below(2);
     for _ in 0..edits {
-        let op = cur.below(7);
+        let op = cur.below(8);
         let n = chars.len();
         match op {
             0 => {
@@ -65,6 +65,14 @@ pub fn mutate(cur: &mut Cursor, s: &str, alphabet: &str) -> String {
                 let i = cur.below(n);
                 let c = chars[i];
                 chars.insert(i, c);
+            }
+            7 if n > 0 => {
+                // the other case of a letter (another colour's man, another spelling of a right, a piece letter for a file)
+                let letters: Vec<usize> = (0..n).filter(|&i| chars[i].is_ascii_alphabetic()).collect();
+                if !letters.is_empty() {
+                    let i = letters[cur.below(letters.len())];
+                    chars[i] = if chars[i].is_ascii_uppercase() { chars[i].to_ascii_lowercase() } else { chars[i].to_ascii_uppercase() };
+                }
             }
             _ => {
                 let c = pick_char(cur, alphabet);
